@@ -322,7 +322,7 @@ class CgAnytime(ExactPartition):
     crosscheck = False
 
 
-cg_anytime = [CgAnytime("cg", CG, o, shapes_quick=[(1, 2), (2, 2), (3, 2), (2, 3)], shapes_thorough=[(1, 2), (2, 2), (3, 2), (2, 3), (3, 3), (4, 2)]) for o in ("difference", "min-max", "max-min")]
+cg_anytime = [CgAnytime("cg", CG, o, shapes_quick=[(1, 2), (2, 2), (3, 2), (2, 3)], shapes_thorough=[(1, 2), (2, 2), (3, 2), (2, 3), (3, 3)]) for o in ("difference", "min-max", "max-min")]
 cg_anytime_difference, cg_anytime_minmax, cg_anytime_maxmin = cg_anytime
 
 
